@@ -114,8 +114,17 @@ pub fn run(ctx: &mut Ctx) {
     conv_case(ctx, two_pi_c);
   }
 
+  // ---- every API route to the same conversion / grid description
+  for _ in 0..(ctx.n / 8).max(20) {
+    routes_case(ctx);
+  }
+
   // ---- range evaluation = point by point (implementation against itself)
   range_eval(ctx);
+
+  // ---- history independence: a sample of the traversals above, re-evaluated in reverse order at
+  // the end of the run, must be bit-identical (no state kept between calls)
+  history_replay(ctx);
 }
 
 type Key = (u64, u64);
@@ -231,6 +240,7 @@ fn steps_case(ctx: &mut Ctx, a: f64, b: f64, n: usize) {
   let s = Steps(a, b, n);
   let v: Vec<f64> = s.into_iter().collect();
   ctx.k("steps", &format!("{} {} {}", fl(a), fl(b), n), &fls(&v));
+  record_history(Hist::Line(a, b, n, fnv(v.iter().map(|x| x.to_bits()))));
   // drain script
   let sc = script(&mut ctx.rng, n + 2);
   let mut it = s.into_iter();
@@ -304,6 +314,7 @@ fn steps2d_case(ctx: &mut Ctx, ax: f64, bx: f64, nx: usize, ay: f64, by: f64, ny
   let flat: Vec<f64> = v.iter().flat_map(|p| [p.0, p.1]).collect();
   let args = format!("{} {} {} {} {} {}", fl(ax), fl(bx), nx, fl(ay), fl(by), ny);
   ctx.k("steps2d", &args, &fls(&flat));
+  record_history(Hist::Plane((ax, bx, nx), (ay, by, ny), fnv(flat.iter().map(|x| x.to_bits()))));
   let sc = script(&mut ctx.rng, (nx * ny).min(12) + 2);
   let mut it = s.into_iter();
   let outs: Vec<String> = sc
@@ -405,7 +416,11 @@ fn gen_band(r: &mut Rng) -> (f64, f64) {
   // ascending positive pair (wavelength-like or frequency-like), sometimes descending
   let lo = r.log_range(200e-9, 5e-6);
   let hi = lo * r.range(1.0001, 2.0);
-  if r.below(8) == 0 { (hi, lo) } else { (lo, hi) }
+  match r.below(10) {
+    0 => (hi, lo), // descending
+    1 => (lo, lo), // a single-valued axis (equal endpoints)
+    _ => (lo, hi),
+  }
 }
 
 fn conv_case(ctx: &mut Ctx, two_pi_c: f64) {
@@ -479,42 +494,358 @@ fn conv_case(ctx: &mut Ctx, two_pi_c: f64) {
   ctx.s("C14.conv", ok_sd, "conv/sumdiff-roundtrip-equal-span", &format!("fs=({:e},{:e})x({:e},+span)", fer.0 .0, fer.0 .1, fer.1 .0));
 }
 
-fn range_eval(ctx: &mut Ctx) {
-  // implementation against itself: `*_range` == point-by-point == flat SI arrays
-  let spdc = SPDC::default();
-  let spectrum = spdc.joint_spectrum(Integrator::default());
-  let shapes: &[(usize, usize)] = if ctx.thorough { &[(1, 1), (2, 3), (5, 4), (7, 7), (3, 9)] } else { &[(1, 1), (2, 3), (4, 3)] };
-  for &(nx, ny) in shapes {
-    let l0 = ctx.rng.range(1500e-9, 1540e-9);
-    let l1 = ctx.rng.range(1560e-9, 1600e-9);
-    let range = WavelengthSpace::new((l0 * M, l1 * M, nx), (l0 * M, l1 * M, ny));
-    let jsi = spectrum.jsi_range(range);
-    let jsa = spectrum.jsa_range(range);
-    let sing = spectrum.jsi_singles_range(range);
-    let pts: Vec<(Wavelength, Wavelength)> = range.as_steps().into_iter().collect();
-    let mut ok = jsi.len() == nx * ny && jsa.len() == nx * ny && sing.len() == nx * ny;
-    if ok {
-      for (k, (ls, li)) in pts.iter().enumerate() {
-        let ws = spdcalc::utils::vacuum_wavelength_to_frequency(*ls);
-        let wi = spdcalc::utils::vacuum_wavelength_to_frequency(*li);
-        if spectrum.jsi(ws, wi) != jsi[k] || spectrum.jsa(ws, wi) != jsa[k] || spectrum.jsi_singles(ws, wi) != sing[k] {
-          ok = false;
+// ------------------------------------------------------------------------------------------------
+// history independence
+
+#[derive(Clone, Copy)]
+enum Hist {
+  Line(f64, f64, usize, u64),
+  Plane((f64, f64, usize), (f64, f64, usize), u64),
+}
+static HISTORY: std::sync::Mutex<Vec<Hist>> = std::sync::Mutex::new(Vec::new());
+
+fn fnv(bits: impl Iterator<Item = u64>) -> u64 {
+  let mut h: u64 = 0xcbf29ce484222325;
+  for b in bits {
+    h = (h ^ b).wrapping_mul(0x100000001b3);
+    h ^= h >> 29;
+  }
+  h
+}
+
+static SEEN: std::sync::atomic::AtomicUsize = std::sync::atomic::AtomicUsize::new(0);
+
+fn record_history(h: Hist) {
+  // the first 400 cases (the exhaustive small counts), then every 7th, at most 4000
+  let k = SEEN.fetch_add(1, std::sync::atomic::Ordering::Relaxed);
+  let mut g = HISTORY.lock().unwrap();
+  if g.len() < 4000 && (k < 400 || k % 7 == 0) {
+    g.push(h);
+  }
+}
+
+fn history_replay(ctx: &mut Ctx) {
+  let items: Vec<Hist> = HISTORY.lock().unwrap().clone();
+  let mut bad: Option<String> = None;
+  let mut count = 0;
+  // reversed order, 1-D and 2-D interleaved as they were recorded
+  for h in items.iter().rev() {
+    count += 1;
+    match *h {
+      Hist::Line(a, b, n, want) => {
+        let got = fnv(Steps(a, b, n).into_iter().map(|x| x.to_bits()));
+        let got_rev = {
+          let mut v: Vec<u64> = Steps(a, b, n).into_iter().rev().map(|x| x.to_bits()).collect();
+          v.reverse();
+          fnv(v.into_iter())
+        };
+        if (got != want || got_rev != want) && bad.is_none() {
+          bad = Some(format!("a={:e} b={:e} n={}", a, b, n));
+        }
+      }
+      Hist::Plane(x, y, want) => {
+        let got = fnv(Steps2D(x, y).into_iter().flat_map(|p| [p.0.to_bits(), p.1.to_bits()]));
+        if got != want && bad.is_none() {
+          bad = Some(format!("x=({:e},{:e},{}) y=({:e},{:e},{})", x.0, x.1, x.2, y.0, y.1, y.2));
         }
       }
     }
-    ctx.s("C14.range", ok, "range/pointwise", &format!("nx={} ny={} l0={:e} l1={:e}", nx, ny, l0, l1));
-    let flat: Vec<Wavelength> = pts.iter().flat_map(|(s, i)| [*s, *i]).collect();
-    let jsi2 = spectrum.jsi_range(SignalIdlerWavelengthArray(flat));
-    ctx.s("C14.range", jsi2 == jsi, "range/flat-wavelength-array", &format!("nx={} ny={}", nx, ny));
-    let fflat: Vec<Frequency> = range
-      .as_frequency_space()
-      .as_steps()
-      .into_iter()
-      .flat_map(|(s, i)| [s, i])
-      .collect();
-    let jsi3 = spectrum.jsi_range(SignalIdlerFrequencyArray(fflat));
-    let jsi4 = spectrum.jsi_range(range.as_frequency_space());
-    ctx.s("C14.range", jsi3 == jsi4, "range/flat-frequency-array", &format!("nx={} ny={}", nx, ny));
+  }
+  ctx.count("history/replayed");
+  ctx.s("C14.steps", bad.is_none(), if bad.is_none() { "history/ok" } else { "history/differs" }, &format!("replayed={} first_difference={}", count, bad.unwrap_or_else(|| "-".into())));
+}
+
+// ------------------------------------------------------------------------------------------------
+// API routes
+
+fn space_close(a: &Steps2D<f64>, b: &Steps2D<f64>) -> bool {
+  let c = |x: f64, y: f64| x.to_bits() == y.to_bits() || x == y || (x - y).abs() <= 1e-12 * x.abs().max(y.abs());
+  a.0 .2 == b.0 .2 && a.1 .2 == b.1 .2 && c(a.0 .0, b.0 .0) && c(a.0 .1, b.0 .1) && c(a.1 .0, b.1 .0) && c(a.1 .1, b.1 .1)
+}
+
+fn routes_case(ctx: &mut Ctx) {
+  let (a, b) = gen_band(&mut ctx.rng);
+  let (c, d) = gen_band(&mut ctx.rng);
+  let nx = ctx.rng.between(0, 30);
+  let ny = ctx.rng.between(0, 30);
+  let ws = WavelengthSpace::new((a * M, b * M, nx), (c * M, d * M, ny));
+  let detail = format!("ws=({:e},{:e},{})x({:e},{:e},{})", a, b, nx, c, d, ny);
+  let r = guard(|| {
+    let mut bad: Vec<&'static str> = Vec::new();
+    // wavelength → frequency
+    let fs = ws.as_frequency_space();
+    let f0 = raw_f(fs.steps());
+    let fs_b: FrequencySpace = ws.into();
+    for (name, x) in [("FrequencySpace::from(ws)", FrequencySpace::from(ws)), ("FrequencySpace::from_wavelength_space", FrequencySpace::from_wavelength_space(ws)), ("ws.into()", fs_b)] {
+      if !space_close(&raw_f(x.steps()), &f0) {
+        bad.push(name);
+      }
+    }
+    // frequency → wavelength
+    let w0 = raw_l(fs.as_wavelength_space().steps());
+    for (name, x) in [("WavelengthSpace::from(fs)", WavelengthSpace::from(fs)), ("WavelengthSpace::from_frequency_space", WavelengthSpace::from_frequency_space(fs))] {
+      if !space_close(&raw_l(x.steps()), &w0) {
+        bad.push(name);
+      }
+    }
+    // → sum/diff
+    let sd = SumDiffFrequencySpace::from_frequency_space(fs);
+    let s0 = raw_f(sd.steps());
+    for (name, x) in [
+      ("SumDiff::from(fs)", SumDiffFrequencySpace::from(fs)),
+      ("fs.as_sum_diff_space", fs.as_sum_diff_space()),
+      ("SumDiff::from(ws)", SumDiffFrequencySpace::from(ws)),
+      ("SumDiff::from_wavelength_space", SumDiffFrequencySpace::from_wavelength_space(ws)),
+      ("ws.as_sum_diff_space", ws.as_sum_diff_space()),
+    ] {
+      if !space_close(&raw_f(x.steps()), &s0) {
+        bad.push(name);
+      }
+    }
+    // sum/diff →
+    let f1 = raw_f(sd.as_frequency_space().steps());
+    for (name, x) in [("FrequencySpace::from(sd)", FrequencySpace::from(sd)), ("FrequencySpace::from_sum_diff_space", FrequencySpace::from_sum_diff_space(sd))] {
+      if !space_close(&raw_f(x.steps()), &f1) {
+        bad.push(name);
+      }
+    }
+    let w1 = raw_l(sd.as_frequency_space().as_wavelength_space().steps());
+    for (name, x) in [("WavelengthSpace::from(sd)", WavelengthSpace::from(sd)), ("WavelengthSpace::from_sum_diff_space", WavelengthSpace::from_sum_diff_space(sd)), ("sd.as_wavelength_space", sd.as_wavelength_space())] {
+      if !space_close(&raw_l(x.steps()), &w1) {
+        bad.push(name);
+      }
+    }
+    // From<Steps2D>, steps()/as_steps(), resolution setters keep the endpoints and set both counts
+    let st = *fs.steps();
+    if !space_close(&raw_f(FrequencySpace::from(st).steps()), &f0) || !space_close(&raw_f(&fs.as_steps()), &f0) {
+      bad.push("From<Steps2D>/as_steps");
+    }
+    let res = nx + 3;
+    let mut fs_m = fs;
+    fs_m.set_resolution(res);
+    let with = |x: &Steps2D<f64>, base: &Steps2D<f64>| x.0 .2 == res && x.1 .2 == res && x.0 .0.to_bits() == base.0 .0.to_bits() && x.0 .1.to_bits() == base.0 .1.to_bits() && x.1 .0.to_bits() == base.1 .0.to_bits() && x.1 .1.to_bits() == base.1 .1.to_bits();
+    if !with(&raw_f(fs.with_resolution(res).steps()), &f0) || !with(&raw_f(fs_m.steps()), &f0) {
+      bad.push("FrequencySpace resolution");
+    }
+    let mut ws_m = ws;
+    ws_m.set_resolution(res);
+    let w_base = raw_l(ws.steps());
+    if !with(&raw_l(ws.with_resolution(res).steps()), &w_base) || !with(&raw_l(ws_m.steps()), &w_base) {
+      bad.push("WavelengthSpace resolution");
+    }
+    let mut sd_m = sd;
+    sd_m.set_resolution(res);
+    if !with(&raw_f(sd.with_resolution(res).steps()), &s0) || !with(&raw_f(sd_m.steps()), &s0) {
+      bad.push("SumDiffFrequencySpace resolution");
+    }
+    bad
+  });
+  match r {
+    None => ctx.s("C14.conv", false, "conv/routes/panic", &detail),
+    Some(bad) => ctx.s("C14.conv", bad.is_empty(), if bad.is_empty() { "conv/routes/ok" } else { "conv/routes/differs" }, &format!("{} routes={}", detail, bad.join(";").replace(' ', "_"))),
+  }
+  ctx.count("conv/routes");
+
+  // the grid descriptions themselves: accessors, constructors, iterator constructors
+  let (a, b) = (gen_endpoint(&mut ctx.rng), gen_endpoint(&mut ctx.rng));
+  let n = gen_count(&mut ctx.rng, 20);
+  let (ay, by, ny) = (gen_endpoint(&mut ctx.rng), gen_endpoint(&mut ctx.rng), gen_count(&mut ctx.rng, 12));
+  let r = guard(|| {
+    let s = Steps(a, b, n);
+    let v: Vec<u64> = s.into_iter().map(|x| x.to_bits()).collect();
+    let mut ok = s.start().to_bits() == a.to_bits() && s.end().to_bits() == b.to_bits() && s.steps() == n && s.len() == n && s.is_empty() == (n == 0);
+    ok = ok && s.range().0.to_bits() == a.to_bits() && s.range().1.to_bits() == b.to_bits();
+    ok = ok && (n == 0 || s.divisions() == n - 1);
+    ok = ok && Steps::from((a, b, n)).into_iter().map(|x| x.to_bits()).collect::<Vec<_>>() == v;
+    ok = ok && (0..n).all(|i| s.value(i).to_bits() == v[i]);
+    let g = Steps2D::new((a, b, n), (ay, by, ny));
+    let pts: Vec<(u64, u64)> = g.into_iter().map(|p| (p.0.to_bits(), p.1.to_bits())).collect();
+    ok = ok && Steps2D((a, b, n), (ay, by, ny)).into_iter().map(|p| (p.0.to_bits(), p.1.to_bits())).collect::<Vec<_>>() == pts;
+    ok = ok && g.len() == n * ny && g.is_empty() == (n * ny == 0) && g.is_square() == (n == ny);
+    ok = ok && g.ranges().0 .0.to_bits() == a.to_bits() && g.ranges().1 .1.to_bits() == by.to_bits();
+    let it = spdcalc::utils::Iterator2D::new(g);
+    ok = ok && it.map(|p| (p.0.to_bits(), p.1.to_bits())).collect::<Vec<_>>() == pts;
+    ok = ok && (0..pts.len()).all(|i| { let p = it.get_xy(i); let q = g.value(i); (p.0.to_bits(), p.1.to_bits()) == pts[i] && (q.0.to_bits(), q.1.to_bits()) == pts[i] });
+    // swapping the axes twice is the identity; the swapped grid is the grid built from (y, x)
+    ok = ok && g.swapped().swapped().into_iter().map(|p| (p.0.to_bits(), p.1.to_bits())).collect::<Vec<_>>() == pts;
+    ok = ok && g.swapped().into_iter().map(|p| (p.0.to_bits(), p.1.to_bits())).collect::<Vec<_>>() == Steps2D((ay, by, ny), (a, b, n)).into_iter().map(|p| (p.0.to_bits(), p.1.to_bits())).collect::<Vec<_>>();
+    if n >= 1 && ny >= 1 {
+      ok = ok && g.divisions() == (n - 1, ny - 1);
+      let w = g.division_widths();
+      ok = ok && w.0.to_bits() == Steps(a, b, n).division_width().to_bits() && w.1.to_bits() == Steps(ay, by, ny).division_width().to_bits();
+      ok = ok && it.get_dx().to_bits() == w.0.to_bits() && it.get_dy().to_bits() == w.1.to_bits();
+    }
+    ok
+  });
+  ctx.s("C14.steps", r == Some(true), if r == Some(true) { "steps/api-routes/ok" } else if r.is_none() { "steps/api-routes/panic" } else { "steps/api-routes/differs" }, &format!("x=({:e},{:e},{}) y=({:e},{:e},{})", a, b, n, ay, by, ny));
+}
+
+/// element-wise comparison of two arrays of range values: bit-identical when every point is evaluated
+/// sequentially, 1e-12 relative (floored at 1e-3 of the array's peak) when each point is itself a
+/// parallel quadrature sum whose rounding depends on scheduling
+fn same_values(a: &[f64], b: &[f64], exact: bool) -> bool {
+  if a.len() != b.len() {
+    return false;
+  }
+  let peak = a.iter().fold(0.0f64, |m, v| m.max(v.abs()));
+  a.iter().zip(b).all(|(x, y)| {
+    if x.to_bits() == y.to_bits() || x == y {
+      return true;
+    }
+    !exact && (x - y).abs() <= 1e-12 * x.abs().max(y.abs()).max(1e-3 * peak)
+  })
+}
+
+fn cflat(v: &[Complex<f64>]) -> Vec<f64> {
+  v.iter().flat_map(|z| [z.re, z.im]).collect()
+}
+fn jflat(v: &[spdcalc::JSIUnits<f64>]) -> Vec<f64> {
+  v.iter().map(|x| *(*x / spdcalc::JSIUnits::new(1.))).collect()
+}
+
+/// the eight `*_range` functions on one range: (name, values, per-point evaluation uses 2-D quadrature)
+fn all_ranges<T: IntoSignalIdlerIterator + Clone>(sp: &spdcalc::jsa::JointSpectrum, r: T, singles: bool) -> Vec<(&'static str, Vec<f64>, bool)> {
+  let mut out = vec![
+    ("jsa_range", cflat(&sp.jsa_range(r.clone())), false),
+    ("jsa_normalized_range", cflat(&sp.jsa_normalized_range(r.clone())), false),
+    ("jsi_range", jflat(&sp.jsi_range(r.clone())), false),
+    ("jsi_normalized_range", sp.jsi_normalized_range(r.clone()), false),
+  ];
+  if singles {
+    out.push(("jsi_singles_range", jflat(&sp.jsi_singles_range(r.clone())), true));
+    out.push(("jsi_singles_normalized_range", sp.jsi_singles_normalized_range(r.clone()), true));
+    out.push(("jsi_singles_idler_range", jflat(&sp.jsi_singles_idler_range(r.clone())), true));
+    out.push(("jsi_singles_idler_normalized_range", sp.jsi_singles_idler_normalized_range(r), true));
+  }
+  out
+}
+
+/// point-by-point evaluation of the six functions that have a point-wise form
+fn all_pointwise(sp: &spdcalc::jsa::JointSpectrum, pts: &[(Frequency, Frequency)], singles: bool) -> Vec<(&'static str, Vec<f64>, bool)> {
+  let mut out = vec![
+    ("jsa_range", cflat(&pts.iter().map(|p| sp.jsa(p.0, p.1)).collect::<Vec<_>>()), false),
+    ("jsa_normalized_range", cflat(&pts.iter().map(|p| sp.jsa_normalized(p.0, p.1)).collect::<Vec<_>>()), false),
+    ("jsi_range", jflat(&pts.iter().map(|p| sp.jsi(p.0, p.1)).collect::<Vec<_>>()), false),
+    ("jsi_normalized_range", pts.iter().map(|p| sp.jsi_normalized(p.0, p.1)).collect(), false),
+  ];
+  if singles {
+    out.push(("jsi_singles_range", jflat(&pts.iter().map(|p| sp.jsi_singles(p.0, p.1)).collect::<Vec<_>>()), true));
+    out.push(("jsi_singles_normalized_range", pts.iter().map(|p| sp.jsi_singles_normalized(p.0, p.1)).collect(), true));
+  }
+  out
+}
+
+fn fbits(p: &[(Frequency, Frequency)]) -> Vec<(u64, u64)> {
+  p.iter().map(|q| ((*(q.0 / (RAD / S))).to_bits(), (*(q.1 / (RAD / S))).to_bits())).collect()
+}
+
+fn range_eval(ctx: &mut Ctx) {
+  // `*_range` == point-by-point == flat SI arrays, for every range function, every kind of range,
+  // every integrator; the (signal, idler) points of every kind of range, sequential == parallel iterator
+  use rayon::iter::ParallelIterator;
+  let spdc = SPDC::default();
+  // (name, integrator, 1-D quadrature per point is a parallel sum, 2-D quadrature per point is a parallel sum, use for singles)
+  let mut integrators: Vec<(&str, Integrator, bool, bool, bool)> = vec![
+    ("simpson50", Integrator::default(), false, true, true),
+    ("gauss-legendre6", Integrator::GaussLegendre { degree: 6 }, false, false, true),
+    ("simpson130", Integrator::Simpson { divs: 130 }, true, true, false),
+    ("adaptive-simpson", Integrator::AdaptiveSimpson { tolerance: 1e-6, max_depth: 8 }, false, false, false),
+  ];
+  if ctx.thorough {
+    integrators.extend([
+      ("simpson9-odd", Integrator::Simpson { divs: 9 }, false, true, true),
+      ("simpson201-odd", Integrator::Simpson { divs: 201 }, true, true, false),
+      ("gauss-legendre2", Integrator::GaussLegendre { degree: 2 }, false, false, true),
+      ("gauss-legendre15", Integrator::GaussLegendre { degree: 15 }, false, false, false),
+      ("adaptive-simpson-2d", Integrator::AdaptiveSimpson { tolerance: 1e-5, max_depth: 6 }, false, false, true),
+      ("clenshaw-curtis", Integrator::ClenshawCurtis { tolerance: 1e-6 }, false, false, false),
+    ]);
+  }
+  let shapes: &[(usize, usize)] = if ctx.thorough { &[(0, 3), (3, 0), (1, 1), (1, 2), (2, 1), (2, 2), (2, 3), (5, 4), (3, 9)] } else { &[(0, 3), (1, 1), (1, 2), (2, 3), (4, 3)] };
+  for (si, &(nx, ny)) in shapes.iter().enumerate() {
+    let l0 = ctx.rng.range(1500e-9, 1540e-9);
+    let l1 = ctx.rng.range(1560e-9, 1600e-9);
+    // ascending, and (every other shape) descending idler axis
+    let (y0, y1) = if si % 2 == 0 { (l0, l1) } else { (l1, l0) };
+    let ws = WavelengthSpace::new((l0 * M, l1 * M, nx), (y0 * M, y1 * M, ny));
+    let fs = ws.as_frequency_space();
+    let sd = ws.as_sum_diff_space();
+    let wl_flat: Vec<Wavelength> = ws.as_steps().into_iter().flat_map(|(s, i)| [s, i]).collect();
+    let fr_flat: Vec<Frequency> = fs.as_steps().into_iter().flat_map(|(s, i)| [s, i]).collect();
+    let tag = format!("nx={} ny={} l0={:e} l1={:e} y=({:e},{:e})", nx, ny, l0, l1, y0, y1);
+
+    // ---- the (signal, idler) points of each kind of range
+    let p_ws: Vec<(Frequency, Frequency)> = ws.into_signal_idler_iterator().collect();
+    let p_fs: Vec<(Frequency, Frequency)> = fs.into_signal_idler_iterator().collect();
+    let p_sd: Vec<(Frequency, Frequency)> = sd.into_signal_idler_iterator().collect();
+    let p_wf: Vec<(Frequency, Frequency)> = SignalIdlerWavelengthArray(wl_flat.clone()).into_signal_idler_iterator().collect();
+    let p_ff: Vec<(Frequency, Frequency)> = SignalIdlerFrequencyArray(fr_flat.clone()).into_signal_idler_iterator().collect();
+    let e_ws: Vec<(Frequency, Frequency)> = ws.as_steps().into_iter().map(|(a, b)| (spdcalc::utils::vacuum_wavelength_to_frequency(a), spdcalc::utils::vacuum_wavelength_to_frequency(b))).collect();
+    let e_fs: Vec<(Frequency, Frequency)> = fs.as_steps().into_iter().collect();
+    let e_sd: Vec<(Frequency, Frequency)> = sd.as_steps().into_iter().map(|(s, d)| (s - d, s + d)).collect();
+    let ok_pts = fbits(&p_ws) == fbits(&e_ws) && fbits(&p_fs) == fbits(&e_fs) && fbits(&p_sd) == fbits(&e_sd) && fbits(&p_wf) == fbits(&e_ws) && fbits(&p_ff) == fbits(&e_fs) && p_ws.len() == nx * ny;
+    ctx.s("C14.range", ok_pts, "range/space-points", &tag);
+    let q_ws: Vec<(Frequency, Frequency)> = ws.into_signal_idler_par_iterator().collect();
+    let q_fs: Vec<(Frequency, Frequency)> = fs.into_signal_idler_par_iterator().collect();
+    let q_sd: Vec<(Frequency, Frequency)> = sd.into_signal_idler_par_iterator().collect();
+    let q_wf: Vec<(Frequency, Frequency)> = SignalIdlerWavelengthArray(wl_flat.clone()).into_signal_idler_par_iterator().collect();
+    let q_ff: Vec<(Frequency, Frequency)> = SignalIdlerFrequencyArray(fr_flat.clone()).into_signal_idler_par_iterator().collect();
+    let ok_par = fbits(&q_ws) == fbits(&p_ws) && fbits(&q_fs) == fbits(&p_fs) && fbits(&q_sd) == fbits(&p_sd) && fbits(&q_wf) == fbits(&p_wf) && fbits(&q_ff) == fbits(&p_ff);
+    ctx.s("C14.range", ok_par, "range/par-vs-seq-iterator", &tag);
+
+    // ---- every range function × every kind of range × integrators
+    for &(iname, integ, par1d, par2d, use2d) in integrators.iter() {
+      let singles = use2d && nx * ny <= 12;
+      let r = guard(|| {
+        let sp = spdc.joint_spectrum(integ);
+        let exact_of = |two_d: bool| if two_d { !par2d } else { !par1d };
+        let mut bad: Vec<String> = Vec::new();
+        let kinds: [(&str, Vec<(&'static str, Vec<f64>, bool)>, &Vec<(Frequency, Frequency)>); 5] = [
+          ("wavelength", all_ranges(&sp, ws, singles), &p_ws),
+          ("frequency", all_ranges(&sp, fs, singles), &p_fs),
+          ("sumdiff", all_ranges(&sp, sd, singles), &p_sd),
+          ("flat-wavelength", all_ranges(&sp, SignalIdlerWavelengthArray(wl_flat.clone()), singles), &p_wf),
+          ("flat-frequency", all_ranges(&sp, SignalIdlerFrequencyArray(fr_flat.clone()), singles), &p_ff),
+        ];
+        // one value per grid point, identical to point-by-point evaluation
+        for (kname, vals, pts) in kinds.iter() {
+          let pw = all_pointwise(&sp, pts, singles);
+          for (fname, v, two_d) in vals.iter() {
+            let per = if fname.starts_with("jsa") { 2 } else { 1 };
+            if v.len() != per * nx * ny {
+              bad.push(format!("pointwise:{}:{}:length", kname, fname));
+            }
+            if let Some((_, e, _)) = pw.iter().find(|p| p.0 == *fname) {
+              if !same_values(e, v, exact_of(*two_d)) {
+                bad.push(format!("pointwise:{}:{}", kname, fname));
+              }
+            }
+          }
+        }
+        // a flat list of pairs gives the same values as the equivalent grid
+        for (flat_i, grid_i, label) in [(3usize, 0usize, "flat-wavelength-array"), (4, 1, "flat-frequency-array")] {
+          for ((fname, v, two_d), (_, g, _)) in kinds[flat_i].1.iter().zip(kinds[grid_i].1.iter()) {
+            if !same_values(g, v, exact_of(*two_d)) {
+              bad.push(format!("{}:{}", label, fname));
+            }
+          }
+        }
+        bad
+      });
+      let detail = |what: &str| format!("{} integrator={} singles={} {}", tag, iname, singles, what);
+      match r {
+        None => ctx.s("C14.range", false, "range/panic", &detail("")),
+        Some(bad) => {
+          let pw: Vec<&String> = bad.iter().filter(|b| b.starts_with("pointwise")).collect();
+          ctx.s("C14.range", pw.is_empty(), "range/pointwise", &detail(&pw.iter().take(4).map(|x| x.as_str()).collect::<Vec<_>>().join(",")));
+          for label in ["flat-wavelength-array", "flat-frequency-array"] {
+            let b: Vec<&String> = bad.iter().filter(|b| b.starts_with(label)).collect();
+            ctx.s("C14.range", b.is_empty(), &format!("range/{}", label), &detail(&b.iter().take(4).map(|x| x.as_str()).collect::<Vec<_>>().join(",")));
+          }
+        }
+      }
+      ctx.count(&format!("range/integrator/{}", iname));
+    }
     ctx.count("range/shapes");
   }
 }
